@@ -56,6 +56,7 @@ class Ctx:
         self.tlc_runs = []
         self.findings = [f for f in load_findings() if f['property'] == pid]
         self.level = 'model_checking'
+        self.sigcount = {}
 
     # --- bookkeeping -------------------------------------------------------------------
     def tlc(self, res, what):
@@ -88,7 +89,8 @@ class Ctx:
             h = self.known_hits.setdefault(f['key'], {'what': f['what_fails'], 'n': 0, 'example': _jsonable(case)})
             h['n'] += 1
             return False
-        if len(self.violations) < 50:
+        self.sigcount[sig] = self.sigcount.get(sig, 0) + 1
+        if self.sigcount[sig] <= 3 and len([v for v in self.violations if v]) < 60:
             self.violations.append({'sig': sig, 'what': what, 'case': _jsonable(case)})
         else:
             self.violations.append(None)
@@ -120,7 +122,7 @@ class Ctx:
         if nviol:
             os.makedirs(os.path.join(REPLAYS, self.pid), exist_ok=True)
             shown = [v for v in self.violations if v is not None]
-            for v in shown[:10]:
+            for v in shown[:12]:
                 blob = json.dumps(v, sort_keys=True, indent=1)
                 hsh = hashlib.sha1(blob.encode()).hexdigest()[:12]
                 path = os.path.join(REPLAYS, self.pid, f'{hsh}.json')
@@ -128,8 +130,7 @@ class Ctx:
                     f.write(blob)
                 print(f'VIOLATION property={self.pid} replay={path}')
                 print(f"  {v['sig']}: {v['what']}")
-            if nviol > 10:
-                print(f'  ... {nviol - 10} more violation(s)')
+            print(f'  {nviol} violation(s) by signature: ' + '; '.join(f'{k} x{v}' for k, v in sorted(self.sigcount.items())))
             return 1
         print(f'OK property={self.pid} tier={self.tier} states={self.states} transitions={self.transitions} '
               f'impl_traces={self.traces} evaluations={self.evaluations} '
